@@ -280,7 +280,7 @@ class Server(Acceptor):
                               wl=self.wl,
                               timeout=self.tymeout)
             if ca in self.ixes and self.ixes[ca] is not remoter:
-                self.shutdownIx(ca)
+                self.closeIx(ca)  # shutdown and close replaced connection
             self.ixes[ca] = remoter
 
 
@@ -565,6 +565,8 @@ class ServerTls(Server):
                                  cafilepath=self.cafilepath,
                                 )
 
+            if ca in self.cxes and self.cxes[ca] is not remoter:
+                self.cxes[ca].close()  # shutdown and close replaced connection
             self.cxes[ca] = remoter
 
 
@@ -577,6 +579,8 @@ class ServerTls(Server):
             cx.handshake()
             if cx.connected:  # handshake completed successfully
                 del self.cxes[ca]
+                if ca in self.ixes and self.ixes[ca] is not cx:
+                    self.closeIx(ca)  # shutdown and close replaced connection
                 self.ixes[ca] = cx  # add to incoming connections
                 continue
             if cx.aborted:  # handshake completed unsuccessfully
